@@ -17,11 +17,11 @@ import (
 // collectDesigns returns the selection (designs that get the complete deviation menu) and the
 // other designs (thorough tier only).
 //
-// Extra designs (xdesigns package, listed by the worker itself) are always selected. From every
-// E2 family two designs are selected: the middle one and the last one (families are enumerated
-// simplest-first). Quick tier: only the method cases around the middle and at the end of the
-// family are given to goa's DSL (pipe.Filter, one fresh process per case) and packed. Thorough
-// tier: every case of every family is filtered and packed as the other E2 checks pack them;
+// Extra designs (xdesigns package, listed by the worker itself) are always selected. Quick tier:
+// from every E2 family the last design (families are enumerated simplest-first), packed from
+// the last method cases of the family that goa's DSL accepts (pipe.Filter, one fresh process per
+// case). Thorough tier: every case of every family is filtered and packed as the other E2
+// checks pack them, the middle and the last design of every family are selected;
 // families with the default packing (8 methods, 1 service) are additionally re-packed 8 x 3 for
 // the designs outside the selection (fewer, larger designs; every accepted case is in one).
 func collectDesigns(c *core.Ctx, e *Env) (sel, others []*DesignRef, err error) {
@@ -64,43 +64,28 @@ func collectDesigns(c *core.Ctx, e *Env) (sel, others []*DesignRef, err error) {
 			pd = 1
 		}
 		if !c.Thorough() {
+			// quick: the last design of the family, packed from its last cases
 			w := 2 * ps * pd
-			n := len(f.Cases)
-			windows := [][]spec.MethodCase{f.Cases}
-			if n > 2*w {
-				lo := n/2 - w/2
-				windows = [][]spec.MethodCase{f.Cases[lo : lo+w], f.Cases[n-w:]}
+			win := f.Cases
+			if len(win) > w {
+				win = win[len(win)-w:]
 			}
-			for wi, win := range windows {
-				acc, rej, err := pipe.Filter(win)
-				if err != nil {
-					return nil, nil, err
-				}
-				rejected += len(rej)
-				filtered += len(win)
-				specs := spec.Pack(acc, ps, pd, f.Name)
-				if len(specs) == 0 {
-					continue
-				}
-				var pick []int
-				switch {
-				case len(windows) == 2 && wi == 0:
-					pick = []int{0}
-				case len(windows) == 2:
-					pick = []int{len(specs) - 1}
-				case len(specs) == 1:
-					pick = []int{0}
-				default:
-					pick = []int{len(specs) / 2, len(specs) - 1}
-				}
-				for _, i := range pick {
-					d, err := write(f.Name, fmt.Sprintf(".w%d", wi), i, specs[i])
-					if err != nil {
-						return nil, nil, err
-					}
-					sel = append(sel, d)
-				}
+			acc, rej, err := pipe.Filter(win)
+			if err != nil {
+				return nil, nil, err
 			}
+			rejected += len(rej)
+			filtered += len(win)
+			specs := spec.Pack(acc, ps, pd, f.Name)
+			if len(specs) == 0 {
+				continue
+			}
+			d, err := write(f.Name, "", len(specs)-1, specs[len(specs)-1])
+			if err != nil {
+				return nil, nil, err
+			}
+			d.Name = f.Name + "/last"
+			sel = append(sel, d)
 			continue
 		}
 		acc, rej, err := pipe.Filter(f.Cases)
